@@ -49,7 +49,13 @@ def r8_fresh_pieces(run, tree):
     iof.check_descriptor_to_variables(run, tree)
 
 
-RULES = [r_init, r1_r2, r3, r4_r5, r6, r8_fresh_pieces]
+def r9_units_table(run, tree):
+    run.rule("C14.R9", "particle and sink variables are scaled with the unit the dataset's table answers NOW: exact keys, wildcard keys (also ones added after the dataset was created), default (shared with C01.R13)",
+             "D7 history fold of units/library.py::UnitsLibrary", "", floor=1)
+    iof.check_units_library(run, tree)
+
+
+RULES = [r_init, r1_r2, r3, r4_r5, r6, r8_fresh_pieces, r9_units_table]
 
 
 def t_part_space(run, tree):
